@@ -487,6 +487,7 @@ impl Engine for RegSim {
                 "the sequential cache model is exact: a grid lookup is served from the cache if the name is cached, else from the first root holding the file",
             ],
             required_probes: &["shadow_builtin_after_creation", "reregistration_after_creation", "foreign_handle", "forged_handle", "file_macro_from_resource_file", "file_macro_from_register", "register_item_at_eof_without_terminator", "register_item_first_in_file", "register_cr_only", "runtime_beats_file", "second_root_used", "broken_file_falls_through", "grid_replaced_while_cached", "clear_then_new_version", "refusing_constructor", "recursive_macro", "op_after_clear_old_handle_alive", "op_from_another_os_thread", "storm_of_failing_instantiations", "burst_of_instantiations", "burst_of_registrations", "large_register_with_tag_across_a_block_boundary", "context_created_before_its_search_roots", "ntv2_operator_created"],
+            // (new_operator_got_another_admissible_grid_version stays at zero on the unchanged tree)
             exhaustive: false,
         }
     }
@@ -586,7 +587,13 @@ impl Engine for RegSim {
                 }
             }
         }
-        PlanR { roots_exist: rng.chance(0.6), ctxs, events }
+        // Resource files and registers are part of the *configuration* a history runs in
+        // (the property quantifies over file layouts, not over edits of those files while
+        // contexts are alive: a context may remember what it has read): all of them are
+        // in place before the first instantiation
+        let (mut setup, rest): (Vec<Ev>, Vec<Ev>) = events.into_iter().partition(|e| matches!(e, Ev::WriteResource { .. } | Ev::BreakResource { .. } | Ev::DeleteResource { .. }));
+        setup.extend(rest);
+        PlanR { roots_exist: rng.chance(0.6), ctxs, events: setup }
     }
 
     fn plan_size(&self, plan: &PlanR) -> usize {
@@ -748,9 +755,9 @@ impl Engine for RegSim {
                     }
                     // probes about which path the resolution will take
                     self.resolution_probes(rec, &world, c, def);
-                    let cache_before = world.cache.clone();
+                    let world_before = world.clone();
                     let model_steps = world.step_count(c, def, 0);
-                    let model = eval_with_opaque(&mut world, c, def);
+                    let mut model = eval_with_opaque(&mut world, c, def);
                     let made = if on_thread {
                         // contexts are Send: hand the context to another OS thread for this call
                         let ctx_ref = &mut ctxs[c];
@@ -774,6 +781,27 @@ impl Engine for RegSim {
                         }
                         Ok(m) => m,
                     };
+                    // Which version of a grid a *new* operator gets is left open by the property
+                    // (a cache may keep, share or drop grids as it likes): if the outcome does
+                    // not fit the plain "cache, else disk" reading, try the other admissible ones
+                    let fits = |m: &Option<Val>, ctx: &dyn Context| -> bool {
+                        match (&made, m) {
+                            (Ok(h), Some(Val::Exact(t))) => check_value(ctx, *h, *t).is_ok(),
+                            (Ok(_), Some(Val::Opaque)) => true,
+                            (Err(_), None) => true,
+                            _ => false,
+                        }
+                    };
+                    if !fits(&model, ctxs[c].get()) {
+                        for (m, w) in alternatives(&world_before, c, def) {
+                            if fits(&m, ctxs[c].get()) {
+                                rec.probe("new_operator_got_another_admissible_grid_version");
+                                model = m;
+                                world = w;
+                                break;
+                            }
+                        }
+                    }
                     match (made, model) {
                         (Ok(h), Some(val)) => {
                             if !handles.insert(h) {
@@ -813,7 +841,7 @@ impl Engine for RegSim {
                         (Err(e), None) => {
                             // the model's cache must not have moved further than the library's:
                             // keep whatever was loaded before the failing step (same order)
-                            let _ = cache_before;
+                            let _ = &world_before;
                             rec.logf(|| format!("e{} ctx{} op '{}' -> err {}", k, c, def, util::normalize_message(&e.to_string())));
                         }
                         (Ok(_), None) => {
@@ -1138,6 +1166,57 @@ impl Engine for RegSim {
         }
         rec.logf(|| format!("end {}", sig.hex()));
     }
+}
+
+/// Other admissible readings of what a new operator's grid lookups deliver: an empty
+/// cache (a cache may drop what it likes), and any combination of versions that some
+/// operator of this run has loaded before (a cache may keep sharing what is alive)
+/// or that is on disk now. Each comes with the world it leaves behind.
+pub fn alternatives(before: &World, c: usize, def: &str) -> Vec<(Option<Val>, World)> {
+    let mut out = Vec::new();
+    let mut w = before.clone();
+    w.cache.clear();
+    let m = eval_with_opaque(&mut w, c, def);
+    out.push((m, w));
+    let names: Vec<&str> = GRID_NAMES.iter().copied().chain(std::iter::once(NT_GRID)).collect();
+    let mut options: Vec<Vec<Option<u32>>> = Vec::new();
+    for n in &names {
+        let mut o: Vec<Option<u32>> = vec![None];
+        if let Some(set) = before.ever_loaded.get(*n) {
+            o.extend(set.iter().map(|v| Some(*v)));
+        }
+        if let Some(v) = before.disk_version(n) {
+            if !o.contains(&Some(v)) {
+                o.push(Some(v));
+            }
+        }
+        options.push(o);
+    }
+    let total: usize = options.iter().map(|o| o.len()).product();
+    if total > 400 {
+        return out;
+    }
+    for combo in 0..total {
+        let mut k = combo;
+        let mut w = before.clone();
+        w.cache.clear();
+        let mut any = false;
+        for (i, n) in names.iter().enumerate() {
+            let pick = options[i][k % options[i].len()];
+            k /= options[i].len();
+            if let Some(v) = pick {
+                w.choice.insert(n.to_string(), v);
+                any = true;
+            }
+        }
+        if !any {
+            continue;
+        }
+        let m = eval_with_opaque(&mut w, c, def);
+        w.choice.clear();
+        out.push((m, w));
+    }
+    out
 }
 
 /// (built-in adaptors are marked with a sentinel text in the model and resolve opaquely)
